@@ -3,7 +3,7 @@
    and bodies of Text, Show and the value form {% var v = e %}{{ v }}, where
    an expression is a value of the expression language (abstract: an
    identifier whose rendering in each context is a parameter), a macro
-   parameter, a macro call or render "path".
+   parameter, a macro call or render path.
    `lower` is what the compiler does: extends swapped into a dummy import of
    the extending file (checker.go), render lowered to the call of a dummy
    macro whose body is the rendered file (checkRender), the Show fast paths of
@@ -76,7 +76,7 @@ Definition scope_of (fs : fileset) (p : N) (imported : bool) : list sentry :=
 
 (* checker.go, typecheck: a file that extends a layout is transformed by
    swapping the files: the layout becomes the file that is compiled and gets,
-   in front, a dummy import of the extending file with the identifier "."
+   in front, a dummy import of the extending file with the identifier .
    (all its declarations, unqualified) *)
 Fixpoint set_file (fs : fileset) (p : N) (f : sfile) : fileset :=
   match fs with
